@@ -36,19 +36,22 @@ class Containers(object):
             return self.cache[key]
         if len(self.cache) > 4000:
             self.cache.clear()
+        if kind.endswith('-signed'):
+            # signed data: the first column (and the one derived from it) holds the negated values (Gen_C12.Signed)
+            cols = [[-v for v in c] if j in (0, 2) else c for j, c in enumerate(cols)]
         mat = [[c[r] for c in cols] for r in range(len(cols[0]))]
         nc = len(cols)
         if kind == 'array-int':
             x = np.array(mat, dtype=np.uint16)
         elif kind == 'array-int8':
             x = np.array(mat, dtype=np.uint8)
-        elif kind == 'array-float':
+        elif kind in ('array-float', 'array-float-signed'):
             x = np.array(mat, dtype=np.float64)
         elif kind == 'array-float-F':
             x = np.asfortranarray(np.array(mat, dtype=np.float64))
         else:
             path = os.path.join(self.dir, 's.fcs')
-            dt = 'F' if kind == 'sample-float32' else ('D' if kind == 'sample-double-used' else 'I')
+            dt = 'F' if kind.startswith('sample-float32') else ('D' if kind == 'sample-double-used' else 'I')
             vals = [[float(v) for v in row] for row in mat] if dt in ('F', 'D') else mat
             if kind == 'sample-int8':
                 fcsgen.write_sample(path, vals, ['c%d' % i for i in range(nc)], [256] * nc, bits=8, datatype=dt, pne=['0,0'] * nc)
@@ -118,7 +121,8 @@ def check_call(stat, x, ch, exp, tol):
         elif stat == 'std' and p['var']:
             ok = v >= 0 and close(v * v, p['var'][0], p['var'][1], max(tol, 1e-9))
         elif stat == 'cv' and p['cv2']:
-            ok = v >= 0 and close(v * v, p['cv2'][0], p['cv2'][1], max(tol, 1e-9))
+            # (the coefficient of variation carries the sign of the mean)
+            ok = (v >= 0 if p['mean'][0] >= 0 else v <= 0) and close(v * v, p['cv2'][0], p['cv2'][1], max(tol, 1e-9))
         elif stat == 'gmean' and p['gpow']:
             ok = v > 0 and abs(v ** p['n'] - p['gpow']) <= max(tol, 1e-9) * p['n'] * p['gpow']
         if not ok:
@@ -162,7 +166,7 @@ def main(chk, replay=None):
             exp = st['out']
             x = C.get([c0, c1], kind)
             ch = render_form(form, 4 if C.four else 2)
-            tol = 2e-6 if kind == 'sample-float32' else 1e-12
+            tol = 2e-6 if kind.startswith('sample-float32') else 1e-12
             results = {}
             for stat in STATS:
                 before = np.asarray(x.view(np.ndarray)).tobytes()
@@ -191,6 +195,8 @@ def main(chk, replay=None):
                 if r['rcv'] is not None and r['iqr'] is not None and r['median'] is not None:
                     if not np.allclose(vec('rcv'), vec('iqr') / vec('median'), rtol=max(tol, 1e-12) * 10, atol=1e-300):
                         idt = 'rcv=iqr/median'
+                if kind.endswith('-signed'):
+                    r = dict(r, gcv=None, gstd=None)          # geometric statistics are not defined for signed data
                 if r['gcv'] is not None and r['gstd'] is not None:
                     if not np.allclose(vec('gcv'), np.sqrt(np.exp(np.log(vec('gstd')) ** 2) - 1), rtol=1e-6, atol=1e-7):
                         idt = 'gcv=f(gstd)'
